@@ -69,6 +69,7 @@ type recorder struct {
 	mu       sync.Mutex
 	events   []event
 	override *time.Time // value returned by the next Now() instead of the real time
+	shift    time.Duration // the client's clock runs this far from the clock the kernel stamps packets with
 	snap     func() prevSnap
 }
 
@@ -94,8 +95,8 @@ type recClock struct{}
 func (recClock) Epoch() uint64 { return 0 }
 func (recClock) Now() time.Time {
 	real := realNow()
-	v := real
 	rec.mu.Lock()
+	v := real.Add(rec.shift)
 	if rec.override != nil {
 		v = *rec.override
 		rec.override = nil
